@@ -287,12 +287,12 @@ end BigDec
 namespace BigDec
 open Parse Spec.Numeral
 
-def NoSign (s : List Nat) : Prop := (∀ r, s ≠ 45 :: r) ∧ (∀ r, s ≠ 43 :: r)
+def NoSign (s : List Nat) : Prop := s.head? ≠ some 45 ∧ s.head? ≠ some 43
 
 theorem takeSign_noSign (s : List Nat) (h : NoSign s) : takeSign s = (false, s) := by
   rcases takeSign_cases s with ⟨r, hs, _⟩ | ⟨r, hs, _⟩ | ⟨_, _, ht⟩
-  · exact absurd hs (h.1 r)
-  · exact absurd hs (h.2 r)
+  · subst hs; exact absurd rfl h.1
+  · subst hs; exact absurd rfl h.2
   · exact ht
 
 /-- the model after sign removal: range check on the scale, then the unsigned body -/
@@ -334,5 +334,213 @@ theorem tail_eq (neg : Bool) (ip fp : List Nat) (e : Int) :
           cases neg <;> simp
     · have : Spec.Numeral.isDigit c = false := by simpa using hd
       simp [this]
+
+end BigDec
+
+namespace BigDec
+open Parse Spec.Numeral
+
+theorem finish_eq (d d' : List Nat) (neg : Bool) (o e : Int) (h : takeSign d = (neg, d')) :
+    finish d o e = tailModel neg d' o e := by
+  unfold finish tailModel
+  rw [parseBigInt_eq, h]
+  split
+  · rfl
+  · cases uintCore d' <;> rfl
+
+theorem segDigits_sign (t : Nat) (tl : List Nat) (h : t = 43 ∨ t = 45) : segDigits (t :: tl) = none := by
+  rcases h with h | h <;> subst h <;> simp [segDigits, isDigit_43, isDigit_45]
+
+theorem tailSpec_sign (neg : Bool) (ip : List Nat) (t : Nat) (tl : List Nat) (e : Int)
+    (h : t = 43 ∨ t = 45) : tailSpec neg ip (t :: tl) e = none := by
+  unfold tailSpec
+  cases hh : ip ++ t :: tl with
+  | nil => rfl
+  | cons c r =>
+    simp only
+    split
+    · rfl
+    · rw [segDigits_sign t tl h]
+      cases segDigits ip <;> rfl
+
+/-- the part after the sign, written over `splitFirst`: this is where model and specification meet -/
+def bodyModel (neg : Bool) (body : List Nat) (e : Int) : Option Dec :=
+  match splitFirst (· == cDot) body with
+  | none => tailModel neg body 0 e
+  | some (ip, trail) =>
+    if trail.isEmpty then tailModel neg ip 0 e
+    else if trail.head? = some cPlus ∨ trail.head? = some cMinus then none
+    else tailModel neg (ip ++ trail) ((trail.filter (· != cUnder)).length : Int) e
+
+def bodySpec (neg : Bool) (body : List Nat) (e : Int) : Option Dec :=
+  match cut [46] body with
+  | (ip, fpOpt) => tailSpec neg ip (fpOpt.getD []) e
+
+theorem body_eq (neg : Bool) (body : List Nat) (e : Int) : bodyModel neg body e = bodySpec neg body e := by
+  unfold bodyModel bodySpec
+  rw [cut_eq_splitFirst]
+  have hf : (fun b => ([46] : List Nat).contains b) = (fun b => b == cDot) := funext contains_dot
+  rw [hf]
+  cases hsp : splitFirst (fun b => b == cDot) body with
+  | none =>
+    have := tail_eq neg body [] e
+    simpa using this
+  | some pr =>
+    obtain ⟨ip, trail⟩ := pr
+    cases trail with
+    | nil =>
+      have := tail_eq neg ip [] e
+      simpa using this
+    | cons t tl =>
+      simp only [List.isEmpty_cons, Bool.false_eq_true, if_false, Option.getD_some]
+      by_cases hs : t = 43 ∨ t = 45
+      · rw [tailSpec_sign neg ip t tl e hs]
+        have : ((t :: tl).head? = some cPlus ∨ (t :: tl).head? = some cMinus) := by
+          rcases hs with h | h <;> subst h <;> simp [cPlus, cMinus]
+        split
+        · rfl
+        · contradiction
+      · have : ¬ (some t = some cPlus ∨ some t = some cMinus) := by
+          intro h; apply hs
+          rcases h with h | h <;> injection h with h <;> simp [cPlus, cMinus] at h <;> simp [h]
+        split
+        · contradiction
+        · exact tail_eq neg ip (t :: tl) e
+
+end BigDec
+
+namespace BigDec
+open Parse Spec.Numeral
+
+/-- everything after the exponent has been split off (model side) -/
+def mantModel (mant : List Nat) (e : Int) : Option Dec :=
+  if mant.isEmpty then none
+  else match splitMantissa mant with
+    | none => none
+    | some (digits, offset) => finish digits offset e
+
+/-- everything after the exponent has been split off (specification side) -/
+def mantSpec (mant : List Nat) (e : Int) : Option Dec :=
+  match takeSign mant with
+  | (neg, body) => bodySpec neg body e
+
+theorem splitFirst_head (p : Nat → Bool) (s ip trail : List Nat) (h : splitFirst p s = some (ip, trail))
+    (hne : ip ≠ []) : ip.head? = s.head? := by
+  cases s with
+  | nil => simp [splitFirst] at h
+  | cons b r =>
+    unfold splitFirst at h
+    split at h
+    · injection h with h; injection h with h1 _; exact absurd h1.symm hne
+    · cases hr : splitFirst p r with
+      | none => simp [hr] at h
+      | some pr =>
+        obtain ⟨x, y⟩ := pr
+        simp only [hr] at h
+        injection h with h; injection h with h1 _
+        subst h1; rfl
+
+theorem noSign_append (ip x : List Nat) (s : List Nat) (hs : NoSign s) (hh : ip ≠ [] → ip.head? = s.head?)
+    (hx : ip = [] → NoSign x) : NoSign (ip ++ x) := by
+  cases ip with
+  | nil => simpa using hx rfl
+  | cons b r =>
+    have := hh (by simp)
+    unfold NoSign at *
+    simp only [List.cons_append, List.head?_cons] at *
+    rw [this]; exact hs
+
+theorem tailModel_nil (neg : Bool) (o e : Int) : tailModel neg [] o e = none := by
+  unfold tailModel uintCore; split <;> rfl
+
+/-- unsigned mantissa: the `BigInt` parser sees no sign either -/
+theorem mant_unsigned (body : List Nat) (e : Int) (hs : NoSign body) :
+    (match splitMantissa body with
+      | none => none
+      | some (digits, offset) => finish digits offset e) = bodyModel false body e := by
+  unfold splitMantissa bodyModel
+  cases hsp : splitFirst (fun b => b == cDot) body with
+  | none =>
+    simp only
+    exact finish_eq body body false 0 e (takeSign_noSign body hs)
+  | some pr =>
+    obtain ⟨ip, trail⟩ := pr
+    have hhead := splitFirst_head _ _ _ _ hsp
+    simp only
+    by_cases hte : trail.isEmpty = true
+    · simp only [hte, if_true]
+      have : trail = [] := by simpa using hte
+      subst this
+      have hn : NoSign (ip ++ []) := noSign_append ip [] body hs hhead (by intro _; simp [NoSign])
+      rw [List.append_nil] at hn
+      exact finish_eq ip ip false 0 e (takeSign_noSign ip hn)
+    · simp only [hte, Bool.false_eq_true, if_false]
+      by_cases hsg : trail.head? = some cPlus ∨ trail.head? = some cMinus
+      · simp only [hsg, if_true]
+      · simp only [hsg, if_false]
+        have hx : NoSign trail := by
+          unfold NoSign
+          constructor
+          · intro h; exact hsg (Or.inr (by rw [h]; rfl))
+          · intro h; exact hsg (Or.inl (by rw [h]; rfl))
+        have hn : NoSign (ip ++ trail) := noSign_append ip trail body hs hhead (fun _ => hx)
+        exact finish_eq (ip ++ trail) (ip ++ trail) false _ e (takeSign_noSign _ hn)
+
+/-- signed mantissa: the sign byte travels with the digits into the `BigInt` parser -/
+theorem mant_signed (c : Nat) (neg : Bool) (body : List Nat) (e : Int)
+    (hc : (c = 45 ∧ neg = true) ∨ (c = 43 ∧ neg = false)) :
+    (match splitMantissa (c :: body) with
+      | none => none
+      | some (digits, offset) => finish digits offset e) = bodyModel neg body e := by
+  have hts : ∀ x, takeSign (c :: x) = (neg, x) := by
+    intro x; rcases hc with ⟨h1, h2⟩ | ⟨h1, h2⟩ <;> subst h1 <;> subst h2 <;> rfl
+  have hcd : (c == cDot) = false := by
+    rcases hc with ⟨h1, _⟩ | ⟨h1, _⟩ <;> subst h1 <;> decide
+  unfold splitMantissa bodyModel
+  conv => lhs; unfold splitFirst
+  simp only [hcd, Bool.false_eq_true, if_false]
+  cases hsp : splitFirst (fun b => b == cDot) body with
+  | none =>
+    simp only
+    exact finish_eq (c :: body) body neg 0 e (hts body)
+  | some pr =>
+    obtain ⟨ip, trail⟩ := pr
+    simp only
+    by_cases hte : trail.isEmpty = true
+    · simp only [hte, if_true]
+      exact finish_eq (c :: ip) ip neg 0 e (hts ip)
+    · simp only [hte, Bool.false_eq_true, if_false]
+      by_cases hsg : trail.head? = some cPlus ∨ trail.head? = some cMinus
+      · simp only [hsg, if_true]
+      · simp only [hsg, if_false]
+        exact finish_eq (c :: ip ++ trail) (ip ++ trail) neg _ e (hts _)
+
+theorem mant_eq (mant : List Nat) (e : Int) : mantModel mant e = mantSpec mant e := by
+  unfold mantModel mantSpec
+  rcases takeSign_cases mant with ⟨r, hs, ht⟩ | ⟨r, hs, ht⟩ | ⟨h1, h2, ht⟩
+  · subst hs; rw [ht]
+    simp only [List.isEmpty_cons, Bool.false_eq_true, if_false]
+    rw [mant_signed 45 true r e (Or.inl ⟨rfl, rfl⟩), body_eq]
+  · subst hs; rw [ht]
+    simp only [List.isEmpty_cons, Bool.false_eq_true, if_false]
+    rw [mant_signed 43 false r e (Or.inr ⟨rfl, rfl⟩), body_eq]
+  · rw [ht]
+    simp only
+    have hns : NoSign mant := by
+      unfold NoSign
+      cases mant with
+      | nil => simp
+      | cons b r =>
+        simp only [List.head?_cons]
+        constructor
+        · intro h; injection h with h; exact h1 r (by rw [h])
+        · intro h; injection h with h; exact h2 r (by rw [h])
+    rw [← body_eq]
+    by_cases hemp : mant.isEmpty = true
+    · have : mant = [] := by simpa using hemp
+      subst this
+      simp [bodyModel, splitFirst, tailModel_nil]
+    · simp only [hemp, Bool.false_eq_true, if_false]
+      exact mant_unsigned mant e hns
 
 end BigDec
